@@ -11,9 +11,6 @@ EnvMask(i) == PreTs(i).obs.action_mask                 \* the mask the implement
 MaskedIn(i) == { k \in Agents : EnvMask(i)[k + 1][Ev(i).a[k + 1] + 1] }
 MaskAllows(i) == MaskedIn(i) = Agents
 
-OwnedSame(s, t, k) == \A p \in AllCells0 :
-  (OwnerOf(Val(s.grid, p)) = k \/ OwnerOf(Val(t.grid, p)) = k) => Val(s.grid, p) = Val(t.grid, p)
-
 (* ---------------- C04 ---------------- *)
 \* what a move the rules allow may lead to: the agent is on the destination, or it gave way to an agent
 \* with a higher id that entered that cell in this step
